@@ -85,6 +85,31 @@ def wake_order_program(rng):
             "engine": "world", "family": "wake-order", "leavers": ["q%d" % i for i in leavers]}
 
 
+def absorbed_delay_program(rng):
+    """Positive delays that float rounding absorbs (`now + d == now` at a clock of 2**60): the
+    wake-up is due at the current date, yet both wait-queue backends must treat it alike - as a
+    further step at that date - while other activities still take turns in the current one."""
+    actors = []
+    for i in range(rng.randint(2, 4)):
+        ops = [{"op": "postpone", "k": rng.randint(0, 2)}]
+        for j in range(rng.randint(1, 3)):
+            ops.append({"op": "sleep", "d": rng.choice([1, 2, 16])})
+            ops.append({"op": "now", "tag": "woke%d" % j})
+            for _ in range(rng.randint(0, 3)):        # keep taking turns in the step woken in
+                ops.append({"op": "postpone", "k": 1})
+                ops.append({"op": "now", "tag": "turn"})
+        actors.append({"name": "s%d" % i, "ops": ops})
+    for i in range(rng.randint(1, 3)):
+        ops = []
+        for j in range(rng.randint(3, 8)):
+            ops.append({"op": "postpone", "k": 1})
+            ops.append({"op": "now", "tag": "spin"})
+        actors.append({"name": "p%d" % i, "ops": ops})
+    rng.shuffle(actors)
+    return {"scenario": {"start": float(2 ** 60), "resources": {}, "actors": actors}, "plan": [],
+            "config": {}, "engine": "world", "family": "absorbed-delay"}
+
+
 def check_wake_order(sub):
     rec, cleanup = union.execute(configured(sub, {}))
     try:
@@ -104,6 +129,7 @@ def check_wake_order(sub):
 def generate(rng, tier):
     batch = [union.generate(rng) for _ in range(BATCH)]
     batch.extend(wake_order_program(rng) for _ in range(5))
+    batch.extend(absorbed_delay_program(rng) for _ in range(2))
     for sub in batch:
         if rng.random() < 0.5:
             sub["gc_ticks"] = sorted(rng.randint(1, 80) for _ in range(rng.randint(1, 3)))
